@@ -1,27 +1,47 @@
 (* Proofs about Model/Headers.v: in every reachable fetcher state a non-empty header set implies that the
    target is the blob URL on the registry host the headers were configured for; the same holds for every
-   snapshot a thread works with, hence for every request emitted on any path and under any schedule. *)
+   snapshot a thread works with, hence for every request emitted on any path and under any schedule.
+   The authorizer's handlers hold, per host, the credential the credential function gave for that host, hence
+   every Authorization header / token request carries only what was offered for the host it is for. *)
 From Coq Require Import List Arith Bool Lia.
 From SV Require Import Model.Headers.
+From SV Require Model.Creds Proofs.Creds.
 Import ListNotations.
 
 (* (u, h) is a legitimate target/header pair of the fetcher for host c with configured headers o *)
 Definition good_pair (c : nat) (o : option nat) (u : loc) (h : option nat) : Prop :=
   h = None \/ (h = o /\ u = Blob c).
 
-Definition good_pc (c : nat) (o : option nat) (p : pc) : Prop :=
+(* authorization z is what the authorizer may add to a request to host j *)
+Definition az_for (creds : nat -> ckind) (j : nat) (z : az) : Prop :=
+  match z with
+  | AzNone => True
+  | AzBasic j' => j' = j /\ creds j = KBoth
+  | AzBearer j' _ => j' = j
+  | AzTok _ _ => False
+  end.
+
+Definition good_pc (creds : nat -> ckind) (c : nat) (o : option nat) (p : pc) : Prop :=
   match p with
   | PHook _ _ _ u (Some h) => good_pair c o u h
   | PHook _ _ _ _ None => False          (* does not occur in the fixed code *)
-  | PSend _ _ _ u h => good_pair c o u h
+  | PT _ u h ph => good_pair c o u h /\ match ph with TSend _ z => az_for creds (host_of u) z | _ => True end
   | PRefWrite _ u h => good_pair c o u h
   | _ => True
   end.
 
-Definition inv (s : fs) : Prop :=
-  good_pair (blob s) (org s) (url s) (header s) /\ Forall (good_pc (blob s) (org s)) (threads s).
+Definition handler_ok (creds : nat -> ckind) (p : nat * handler) : Prop :=
+  match snd p with HBasic => creds (fst p) = KBoth | HBearer _ k _ => k = creds (fst p) end.
+Definition auth_inv (creds : nat -> ckind) (a : authz) : Prop := Forall (handler_ok creds) (handlers a).
+
+Definition inv (creds : nat -> ckind) (s : fs) : Prop :=
+  good_pair (blob s) (org s) (url s) (header s)
+  /\ Forall (good_pc creds (blob s) (org s)) (threads s)
+  /\ auth_inv creds (auth s).
 
 Definition good_req (c : nat) (o : option nat) (q : req) : Prop := good_pair c o (r_loc q) (r_hdr q).
+Definition req_ok (creds : nat -> ckind) (c : nat) (o : option nat) (q : req) : Prop :=
+  good_req c o q /\ cred_ok creds q.
 
 Definition org_ok (hs : list hostcfg) (c : nat) (o : option nat) : Prop :=
   forall i, o = Some i -> i = c /\ exists h, nth_error hs i = Some h /\ h_hdr h = true.
@@ -35,100 +55,244 @@ Qed.
 Lemma Forall_nth {A} (P : A -> Prop) l n x : Forall P l -> nth_error l n = Some x -> P x.
 Proof. intros H E. rewrite Forall_forall in H. apply H. eapply nth_error_In. exact E. Qed.
 
+(* ---------- the authorizer ---------- *)
+Lemma h_find_ok creds l j h : Forall (handler_ok creds) l -> h_find l j = Some h -> handler_ok creds (j, h).
+Proof.
+  induction 1 as [|[j' h'] l Hh Hl IH]; simpl; [discriminate|].
+  destruct (Nat.eqb_spec j' j) as [->|Hn]; [intros E; inversion E; subst; exact Hh|exact IH].
+Qed.
+
+Lemma h_del_ok creds l j : Forall (handler_ok creds) l -> Forall (handler_ok creds) (h_del l j).
+Proof.
+  induction 1 as [|[j' h'] l Hh Hl IH]; simpl; [constructor|].
+  destruct (Nat.eqb j' j); [exact IH|constructor; assumption].
+Qed.
+
+Lemma h_set_ok creds l j h :
+  Forall (handler_ok creds) l -> handler_ok creds (j, h) -> Forall (handler_ok creds) (h_set l j h).
+Proof. intros Hl Hh. unfold h_set. constructor; [exact Hh|apply h_del_ok; exact Hl]. Qed.
+
+(* a token request made on behalf of host j *)
+Definition tok_req (creds : nat -> ckind) (j : nat) (q : req) : Prop :=
+  r_hdr q = None /\ exists n c, r_loc q = Realm n /\ r_az q = AzTok j c /\ (c = true -> has_secret (creds j) = true).
+
+Lemma tok_req_ok creds c o j q : tok_req creds j q -> req_ok creds c o q.
+Proof.
+  intros (Hh & n & cr & Hl & Hz & Hc). split.
+  - left. exact Hh.
+  - unfold cred_ok. rewrite Hz. split; [exists n; exact Hl|]. split; assumption.
+Qed.
+
+Lemma tok_fin_spec creds a j n ok qs :
+  auth_inv creds a -> Forall (tok_req creds j) qs ->
+  auth_inv creds (fst (fst (tok_fin a j n (creds j) ok qs)))
+  /\ Forall (tok_req creds j) (snd (fst (tok_fin a j n (creds j) ok qs)))
+  /\ (forall z, snd (tok_fin a j n (creds j) ok qs) = Some z -> az_for creds j z).
+Proof.
+  intros Ha Hqs. unfold tok_fin. destruct ok; simpl.
+  - split; [apply h_set_ok; [exact Ha|reflexivity]|]. split; [exact Hqs|]. intros z E. inversion E. reflexivity.
+  - split; [apply h_set_ok; [exact Ha|reflexivity]|]. split; [exact Hqs|]. intros z E. discriminate.
+Qed.
+
+Lemma authorize_spec creds a j sc :
+  auth_inv creds a ->
+  auth_inv creds (fst (fst (authorize a j sc)))
+  /\ Forall (tok_req creds j) (snd (fst (authorize a j sc)))
+  /\ (forall z, snd (authorize a j sc) = Some z -> az_for creds j z).
+Proof.
+  intros Ha. unfold authorize. destruct (h_find (handlers a) j) as [h|] eqn:Ef.
+  2:{ simpl. split; [exact Ha|]. split; [constructor|]. intros z E. inversion E. exact I. }
+  pose proof (h_find_ok creds _ _ _ Ha Ef) as Hh. unfold handler_ok in Hh. simpl in Hh.
+  destruct h as [|n k tok].
+  - simpl. split; [exact Ha|]. split; [constructor|]. intros z E. inversion E. simpl. split; [reflexivity|exact Hh].
+  - subst k. destruct tok as [|t|].
+    + (* fetch a token *)
+      assert (Hq : forall m c, (c = true -> has_secret (creds j) = true) -> tok_req creds j (mkReq m (Realm n) None (AzTok j c))).
+      { intros m c Hc. split; [reflexivity|]. exists n, c. repeat split. exact Hc. }
+      destruct (has_secret (creds j)) eqn:Es.
+      * destruct (tok_ok (fst (next sc))).
+        -- apply tok_fin_spec; [exact Ha|]. constructor; [apply Hq; intros _; reflexivity|constructor].
+        -- destruct (tok_fallback (creds j) (fst (next sc))).
+           ++ apply tok_fin_spec; [exact Ha|].
+              constructor; [apply Hq; intros _; reflexivity|]. constructor; [apply Hq; intros _; reflexivity|constructor].
+           ++ apply tok_fin_spec; [exact Ha|]. constructor; [apply Hq; intros _; reflexivity|constructor].
+      * apply tok_fin_spec; [exact Ha|]. constructor; [apply Hq; intros E; discriminate|constructor].
+    + simpl. split; [exact Ha|]. split; [constructor|]. intros z E. inversion E. reflexivity.
+    + simpl. split; [exact Ha|]. split; [constructor|]. intros z E. discriminate.
+Qed.
+
+Lemma add_responses_spec creds a j ch :
+  auth_inv creds a -> auth_inv creds (fst (add_responses creds a j ch)).
+Proof.
+  intros Ha. unfold add_responses. destruct ch as [| |realm err].
+  - exact Ha.
+  - destruct (creds j) eqn:E; simpl; try exact Ha. apply h_set_ok; [exact Ha|exact E].
+  - set (a1 := if err then mkAz (h_del (handlers a) j) (ntok a) else a).
+    assert (Ha1 : auth_inv creds a1). { unfold a1. destruct err; [apply h_del_ok; exact Ha|exact Ha]. }
+    destruct (h_find (handlers a1) j); [exact Ha1|].
+    destruct (creds j) eqn:E; simpl; try exact Ha1;
+      (destruct realm as [n|]; simpl; [|exact Ha1]; apply h_set_ok; [exact Ha1|]; unfold handler_ok; simpl; symmetry; exact E).
+Qed.
+
 (* ---------- single steps ---------- *)
 Lemma redirect_res_good c o r u h : redirect_res c o r = Some (u, h) -> good_pair c o u h.
 Proof.
-  unfold redirect_res. destruct r as [code l wf|]; [|discriminate].
+  unfold redirect_res. destruct r as [code l wf ch|]; [|discriminate].
   destruct (code / 100 =? 2).
   - intros E. inversion E; subst. right. split; reflexivity.
   - destruct (code / 100 =? 3); [|discriminate]. destruct l as [l|]; [|discriminate].
     intros E. inversion E; subst. left. reflexivity.
 Qed.
 
-Lemma after_send_good c o k retry sr r : good_pc c o (fst (after_send k retry sr r)).
+Lemma finish_good creds s c r : good_pc creds (blob s) (org s) (fst (finish s c r)).
 Proof.
-  unfold after_send. destruct r as [code l wf|]; [|exact I].
-  destruct k; repeat match goal with |- context [if ?b then _ else _] => destruct b end; exact I.
+  assert (Hr : forall k, good_pc creds (blob s) (org s) (refresh_pc s k)).
+  { intros k. simpl. split; [right; split; reflexivity|exact I]. }
+  unfold finish. destruct c as [retry sr| |k].
+  - destruct r as [code l wf ch|]; [|exact I].
+    repeat match goal with |- context [if ?b then _ else _] => destruct b end; simpl fst; try exact I; apply Hr.
+  - destruct r as [code l wf ch|]; [|exact I].
+    repeat match goal with |- context [if ?b then _ else _] => destruct b end; simpl fst; try exact I; apply Hr.
+  - destruct (redirect_res (blob s) (org s) r) as [[u h]|] eqn:E; [|exact I].
+    simpl. apply redirect_res_good in E. exact E.
 Qed.
 
-Lemma set_pc_inv s t p : inv s -> good_pc (blob s) (org s) p -> inv (set_pc s t p).
-Proof. intros [A B] C. split; simpl; [exact A|apply Forall_upd; assumption]. Qed.
+Lemma set_pc_inv creds s t p : inv creds s -> good_pc creds (blob s) (org s) p -> inv creds (set_pc s t p).
+Proof. intros (A & B & C) D. split; [exact A|]. split; [apply Forall_upd; assumption|exact C]. Qed.
 
-Lemma micro_spec s t r :
-  inv s ->
-  inv (fst (micro true s t r))
-  /\ blob (fst (micro true s t r)) = blob s /\ org (fst (micro true s t r)) = org s
-  /\ Forall (good_req (blob s) (org s)) (snd (micro true s t r)).
+Lemma set_auth_inv creds s a : inv creds s -> auth_inv creds a -> inv creds (set_auth s a).
+Proof. intros (A & B & C) D. split; [exact A|]. split; [exact B|exact D]. Qed.
+
+Lemma set_single_inv creds s : inv creds s -> inv creds (set_single s).
+Proof. intros (A & B & C). split; [exact A|]. split; [exact B|exact C]. Qed.
+
+Lemma finish_at_spec creds s t c r :
+  inv creds s ->
+  inv creds (finish_at s t c r) /\ blob (finish_at s t c r) = blob s /\ org (finish_at s t c r) = org s.
 Proof.
-  intros Hinv. pose proof Hinv as [Hs Ht]. unfold micro. destruct (nth_error (threads s) t) as [p|] eqn:E.
+  intros H. unfold finish_at. pose proof (finish_good creds s c r) as Hg.
+  destruct (finish s c r) as [p ss]. simpl in Hg. destruct ss.
+  - split; [apply set_pc_inv; [apply set_single_inv; exact H|exact Hg]|]. split; reflexivity.
+  - split; [apply set_pc_inv; [exact H|exact Hg]|]. split; reflexivity.
+Qed.
+
+Lemma micro_spec creds s t r toks :
+  inv creds s ->
+  inv creds (fst (micro true creds s t r toks))
+  /\ blob (fst (micro true creds s t r toks)) = blob s /\ org (fst (micro true creds s t r toks)) = org s
+  /\ Forall (req_ok creds (blob s) (org s)) (snd (micro true creds s t r toks)).
+Proof.
+  intros Hinv. pose proof Hinv as (Hs & Ht & Ha). unfold micro.
+  destruct (nth_error (threads s) t) as [p|] eqn:E.
   2:{ simpl. split; [exact Hinv|]. split; [reflexivity|]. split; [reflexivity|constructor]. }
   pose proof (Forall_nth _ _ _ _ Ht E) as Hp.
-  destruct p as [k retry|k retry sr|k retry sr u h|k retry sr u h|k|k u h|ok]; simpl in Hp.
+  destruct p as [k retry|k retry sr|k retry sr u h|c u h ph|k u h|ok]; simpl in Hp.
   - simpl. split; [apply set_pc_inv; [exact Hinv|exact I]|]. split; [reflexivity|]. split; [reflexivity|constructor].
   - simpl. split; [apply set_pc_inv; [exact Hinv|exact Hs]|]. split; [reflexivity|]. split; [reflexivity|constructor].
   - destruct h as [h|]; [|contradiction].
-    simpl. split; [apply set_pc_inv; [exact Hinv|exact Hp]|]. split; [reflexivity|]. split; [reflexivity|constructor].
-  - pose proof (after_send_good (blob s) (org s) k retry sr r) as Hg.
-    destruct (after_send k retry sr r) as [p' ss]. simpl in Hg.
-    assert (Hq : Forall (good_req (blob s) (org s)) [mkReq GET u h]) by (constructor; [exact Hp|constructor]).
-    destruct ss; simpl.
-    + split; [apply set_pc_inv; [split; [exact Hs|exact Ht]|exact Hg]|]. split; [reflexivity|]. split; [reflexivity|exact Hq].
-    + split; [apply set_pc_inv; [exact Hinv|exact Hg]|]. split; [reflexivity|]. split; [reflexivity|exact Hq].
-  - assert (Hq : Forall (good_req (blob s) (org s)) [mkReq GET (Blob (blob s)) (org s)]).
-    { constructor; [|constructor]. right. split; reflexivity. }
-    destruct (redirect_res (blob s) (org s) r) as [[u h]|] eqn:Er; simpl.
-    + apply redirect_res_good in Er.
-      split; [apply set_pc_inv; [exact Hinv|exact Er]|]. split; [reflexivity|]. split; [reflexivity|exact Hq].
-    + split; [apply set_pc_inv; [exact Hinv|exact I]|]. split; [reflexivity|]. split; [reflexivity|exact Hq].
+    simpl. split; [apply set_pc_inv; [exact Hinv|split; [exact Hp|exact I]]|]. split; [reflexivity|]. split; [reflexivity|constructor].
+  - destruct Hp as [Hgp Hz]. destruct ph as [second|second z|r0].
+    + (* Authorize *)
+      destruct (authorize_spec creds (auth s) (host_of u) toks Ha) as (A1 & A2 & A3).
+      destruct (authorize (auth s) (host_of u) toks) as [[a1 tq] oaz]. simpl in A1, A2, A3.
+      assert (Hs1 : inv creds (set_auth s a1)) by (apply set_auth_inv; assumption).
+      assert (Htq : Forall (req_ok creds (blob s) (org s)) tq).
+      { eapply Forall_impl; [|exact A2]. intros q. apply tok_req_ok. }
+      destruct oaz as [z|].
+      * simpl. split; [apply set_pc_inv; [exact Hs1|split; [exact Hgp|apply A3; reflexivity]]|].
+        split; [reflexivity|]. split; [reflexivity|exact Htq].
+      * destruct (finish_at_spec creds (set_auth s a1) t c RErr Hs1) as (F1 & F2 & F3).
+        simpl. split; [exact F1|]. split; [exact F2|]. split; [exact F3|exact Htq].
+    + (* send *)
+      assert (Hq : Forall (req_ok creds (blob s) (org s)) [mkReq GET u h z]).
+      { constructor; [|constructor]. split; [exact Hgp|].
+        unfold cred_ok. simpl. destruct z as [|j|j t0|j c0]; simpl in Hz; try exact I.
+        - destruct Hz as [-> Hk]. split; [reflexivity|exact Hk].
+        - symmetry. exact Hz.
+        - contradiction. }
+      destruct (finish_at_spec creds s t c r Hinv) as (F1 & F2 & F3).
+      destruct (chal_of r) as [ch|].
+      * destruct second.
+        -- simpl. split; [exact F1|]. split; [exact F2|]. split; [exact F3|exact Hq].
+        -- simpl. split; [apply set_pc_inv; [exact Hinv|split; [exact Hgp|exact I]]|].
+           split; [reflexivity|]. split; [reflexivity|exact Hq].
+      * simpl. split; [exact F1|]. split; [exact F2|]. split; [exact F3|exact Hq].
+    + (* AddResponses *)
+      destruct (chal_of r0) as [ch|].
+      * pose proof (add_responses_spec creds (auth s) (host_of u) ch Ha) as A1.
+        destruct (add_responses creds (auth s) (host_of u) ch) as [a1 res]. simpl in A1.
+        assert (Hs1 : inv creds (set_auth s a1)) by (apply set_auth_inv; assumption).
+        destruct res.
+        -- simpl. split; [apply set_pc_inv; [exact Hs1|split; [exact Hgp|exact I]]|].
+           split; [reflexivity|]. split; [reflexivity|constructor].
+        -- destruct (finish_at_spec creds (set_auth s a1) t c r0 Hs1) as (F1 & F2 & F3).
+           simpl. split; [exact F1|]. split; [exact F2|]. split; [exact F3|constructor].
+        -- destruct (finish_at_spec creds (set_auth s a1) t c RErr Hs1) as (F1 & F2 & F3).
+           simpl. split; [exact F1|]. split; [exact F2|]. split; [exact F3|constructor].
+      * destruct (finish_at_spec creds s t c r0 Hinv) as (F1 & F2 & F3).
+        simpl. split; [exact F1|]. split; [exact F2|]. split; [exact F3|constructor].
   - simpl. split; [|split; [reflexivity|split; [reflexivity|constructor]]].
-    apply set_pc_inv; [split; [exact Hp|exact Ht]|]. destruct k; exact I.
+    apply set_pc_inv; [split; [exact Hp|split; [exact Ht|exact Ha]]|]. destruct k; exact I.
   - simpl. split; [exact Hinv|]. split; [reflexivity|]. split; [reflexivity|constructor].
 Qed.
 
-Lemma settle_spec f : forall s t, inv s ->
-  inv (settle true f s t) /\ blob (settle true f s t) = blob s /\ org (settle true f s t) = org s.
+Lemma settle_spec creds f : forall s t toks, inv creds s ->
+  inv creds (fst (settle true creds f s t toks))
+  /\ blob (fst (settle true creds f s t toks)) = blob s /\ org (fst (settle true creds f s t toks)) = org s
+  /\ Forall (req_ok creds (blob s) (org s)) (snd (settle true creds f s t toks)).
 Proof.
-  induction f as [|f IH]; intros s t H; simpl; [split; [exact H|split; reflexivity]|].
-  destruct (is_parked s t); [split; [exact H|split; reflexivity]|].
-  destruct (micro_spec s t RErr H) as (H1 & H2 & H3 & _).
-  destruct (IH _ t H1) as (J1 & J2 & J3). split; [exact J1|]. split; congruence.
+  induction f as [|f IH]; intros s t toks H; cbn [settle].
+  - split; [exact H|]. split; [reflexivity|]. split; [reflexivity|constructor].
+  - destruct (is_parked s t).
+    + split; [exact H|]. split; [reflexivity|]. split; [reflexivity|constructor].
+    + destruct (micro_spec creds s t RErr toks H) as (H1 & H2 & H3 & H4).
+      destruct (micro true creds s t RErr toks) as [s1 q1]. cbn [fst snd] in *.
+      destruct (IH s1 t toks H1) as (J1 & J2 & J3 & J4).
+      destruct (settle true creds f s1 t toks) as [s2 q2]. cbn [fst snd] in *.
+      split; [exact J1|]. split; [congruence|]. split; [congruence|].
+      apply Forall_app. split; [exact H4|]. rewrite H2, H3 in J4. exact J4.
 Qed.
 
-Lemma step_spec s o :
-  inv s ->
-  inv (fst (step true s o))
-  /\ blob (fst (step true s o)) = blob s /\ org (fst (step true s o)) = org s
-  /\ Forall (good_req (blob s) (org s)) (snd (step true s o)).
+Lemma step_spec creds s o :
+  inv creds s ->
+  inv creds (fst (step true creds s o))
+  /\ blob (fst (step true creds s o)) = blob s /\ org (fst (step true creds s o)) = org s
+  /\ Forall (req_ok creds (blob s) (org s)) (snd (step true creds s o)).
 Proof.
-  intros H. destruct o as [k retry|t r|t r]; simpl.
-  - destruct H as [Hs Ht]. split; [|split; [reflexivity|split; [reflexivity|constructor]]].
-    split; simpl; [exact Hs|]. apply Forall_app. split; [exact Ht|]. constructor; [exact I|constructor].
+  intros H. destruct o as [k retry|t r toks|t r toks]; cbn [step].
+  - destruct H as (Hs & Ht & Ha). split; [|split; [reflexivity|split; [reflexivity|constructor]]].
+    split; [exact Hs|]. split; [|exact Ha]. simpl. apply Forall_app. split; [exact Ht|]. constructor; [exact I|constructor].
   - apply micro_spec. exact H.
-  - unfold resume. destruct (micro_spec s t r H) as (H1 & H2 & H3 & H4).
-    destruct (micro true s t r) as [s1 q]. cbn [fst snd] in *.
-    destruct (settle_spec 6 s1 t H1) as (J1 & J2 & J3).
-    split; [exact J1|]. split; [congruence|]. split; [congruence|exact H4].
+  - unfold resume. destruct (micro_spec creds s t r toks H) as (H1 & H2 & H3 & H4).
+    destruct (micro true creds s t r toks) as [s1 q1]. cbn [fst snd] in *.
+    destruct (settle_spec creds 8 s1 t toks H1) as (J1 & J2 & J3 & J4).
+    destruct (settle true creds 8 s1 t toks) as [s2 q2]. cbn [fst snd] in *.
+    split; [exact J1|]. split; [congruence|]. split; [congruence|].
+    apply Forall_app. split; [exact H4|]. rewrite H2, H3 in J4. exact J4.
 Qed.
 
-Lemma exec_cons fixed s o os : exec fixed s (o :: os) = exec fixed (fst (step fixed s o)) os.
+Lemma exec_cons fixed creds s o os :
+  exec fixed creds s (o :: os) = exec fixed creds (fst (step fixed creds s o)) os.
 Proof. reflexivity. Qed.
 
-Lemma emitted_cons fixed s o os :
-  emitted fixed s (o :: os) = snd (step fixed s o) ++ emitted fixed (fst (step fixed s o)) os.
-Proof. cbn [emitted]. destruct (step fixed s o). reflexivity. Qed.
+Lemma emitted_cons fixed creds s o os :
+  emitted fixed creds s (o :: os)
+  = snd (step fixed creds s o) ++ emitted fixed creds (fst (step fixed creds s o)) os.
+Proof. cbn [emitted]. destruct (step fixed creds s o). reflexivity. Qed.
 
-Lemma exec_spec os : forall s, inv s ->
-  inv (exec true s os) /\ blob (exec true s os) = blob s /\ org (exec true s os) = org s.
+Lemma exec_spec creds os : forall s, inv creds s ->
+  inv creds (exec true creds s os) /\ blob (exec true creds s os) = blob s /\ org (exec true creds s os) = org s.
 Proof.
   induction os as [|o os IH]; intros s H; [split; [exact H|split; reflexivity]|].
-  rewrite exec_cons. destruct (step_spec s o H) as (H1 & H2 & H3 & _).
+  rewrite exec_cons. destruct (step_spec creds s o H) as (H1 & H2 & H3 & _).
   destruct (IH _ H1) as (J1 & J2 & J3). split; [exact J1|]. split; congruence.
 Qed.
 
-Lemma emitted_good os : forall s, inv s -> Forall (good_req (blob s) (org s)) (emitted true s os).
+Lemma emitted_ok creds os : forall s, inv creds s ->
+  Forall (req_ok creds (blob s) (org s)) (emitted true creds s os).
 Proof.
   induction os as [|o os IH]; intros s H; [constructor|].
-  rewrite emitted_cons. destruct (step_spec s o H) as (H1 & H2 & H3 & H4).
+  rewrite emitted_cons. destruct (step_spec creds s o H) as (H1 & H2 & H3 & H4).
   apply Forall_app. split; [exact H4|]. specialize (IH _ H1). rewrite H2, H3 in IH. exact IH.
 Qed.
 
@@ -146,43 +310,108 @@ Proof.
   inversion Hj; subst. split; [reflexivity|]. exists hc. split; assumption.
 Qed.
 
-Lemma inv_mk c o u h : good_pair c o u h -> inv (mk_fetcher c o u h).
-Proof. intros H. split; [exact H|constructor]. Qed.
+Lemma inv_mk creds c o u h a : good_pair c o u h -> auth_inv creds a -> inv creds (mk_fetcher c o u h a).
+Proof. intros H Ha. split; [exact H|]. split; [constructor|exact Ha]. Qed.
 
-Lemma emitted_confined hs c o u h os :
-  org_ok hs c o -> good_pair c o u h -> Forall (confined hs) (emitted true (mk_fetcher c o u h) os).
+Lemma emitted_confined creds hs c o u h a os :
+  org_ok hs c o -> good_pair c o u h -> auth_inv creds a ->
+  Forall (fun q => confined hs q /\ cred_ok creds q) (emitted true creds (mk_fetcher c o u h a) os).
 Proof.
-  intros Ho Hg. pose proof (emitted_good os _ (inv_mk c o u h Hg)) as H. simpl in H.
-  eapply Forall_impl; [|exact H]. intros q. apply good_confined. exact Ho.
+  intros Ho Hg Ha. pose proof (emitted_ok creds os _ (inv_mk creds c o u h a Hg Ha)) as H. simpl in H.
+  eapply Forall_impl; [|exact H]. intros q [Hq Hc]. split; [eapply good_confined; eassumption|exact Hc].
 Qed.
 
 (* the state invariant in the words of the plan: non-empty headers imply the registry's blob URL *)
-Lemma header_implies_blob_url hs c o u h os i :
-  org_ok hs c o -> good_pair c o u h ->
-  header (exec true (mk_fetcher c o u h) os) = Some i ->
-  url (exec true (mk_fetcher c o u h) os) = Blob i /\ i = c /\ o = Some i.
+Lemma header_implies_blob_url creds hs c o u h a os i :
+  org_ok hs c o -> good_pair c o u h -> auth_inv creds a ->
+  header (exec true creds (mk_fetcher c o u h a) os) = Some i ->
+  url (exec true creds (mk_fetcher c o u h a) os) = Blob i /\ i = c /\ o = Some i.
 Proof.
-  intros Ho Hg Hi. destruct (exec_spec os _ (inv_mk c o u h Hg)) as ([[Hn|[Hh Hu]] _] & Hb & Hog); simpl in *.
+  intros Ho Hg Ha Hi.
+  destruct (exec_spec creds os _ (inv_mk creds c o u h a Hg Ha)) as (([Hn|[Hh Hu]] & _) & Hb & Hog); simpl in *.
   - rewrite Hn in Hi. discriminate.
   - rewrite Hb in Hu. rewrite Hog in Hh. rewrite Hh in Hi. destruct (Ho i Hi) as [-> _]. repeat split; assumption.
 Qed.
 
 (* ---------- initial resolution ---------- *)
-Lemma get_size_reqs u hd sc : Forall (fun q => r_loc q = u /\ r_hdr q = hd) (fst (fst (get_size u hd sc))).
+(* requests of a round trip for (u, h): token requests on behalf of u's host, or the request itself *)
+Definition xreq_ok (creds : nat -> ckind) (u : loc) (h : option nat) (q : req) : Prop :=
+  cred_ok creds q /\ (r_hdr q = None \/ (r_loc q = u /\ r_hdr q = h)).
+
+Lemma tok_xreq creds u h j q : tok_req creds j q -> xreq_ok creds u h q.
 Proof.
-  unfold get_size. destruct (next sc) as [r1 sc1]. destruct r1 as [c1 l1 wf1|]; simpl.
-  - destruct (c1 =? 200); simpl.
-    + constructor; [split; reflexivity|constructor].
-    + destruct (next sc1) as [r2 sc2]. destruct r2 as [c2 l2 wf2|]; simpl;
-        (constructor; [split; reflexivity|constructor; [split; reflexivity|constructor]]).
-  - constructor; [split; reflexivity|constructor].
+  intros Hq. destruct (tok_req_ok creds 0 None j q Hq) as [_ Hc]. split; [exact Hc|]. left. destruct Hq as [Hh _]. exact Hh.
 Qed.
 
-Lemma resolve_from_spec hs : forall pre sc,
-  Forall (confined (pre ++ hs)) (fst (resolve_from (length pre) hs sc))
-  /\ match snd (resolve_from (length pre) hs sc) with
+Lemma own_xreq creds m u h z : az_for creds (host_of u) z -> xreq_ok creds u h (mkReq m u h z).
+Proof.
+  intros Hz. split; [|right; split; reflexivity].
+  unfold cred_ok. simpl. destruct z as [|j|j t0|j c0]; simpl in Hz; try exact I.
+  - destruct Hz as [-> Hk]. split; [reflexivity|exact Hk].
+  - symmetry. exact Hz.
+  - contradiction.
+Qed.
+
+Lemma xfer_spec creds a m u h sc :
+  auth_inv creds a ->
+  auth_inv creds (fst (fst (fst (xfer creds a m u h sc))))
+  /\ Forall (xreq_ok creds u h) (snd (fst (fst (xfer creds a m u h sc)))).
+Proof.
+  intros Ha. unfold xfer.
+  destruct (authorize_spec creds a (host_of u) sc Ha) as (A1 & A2 & A3).
+  destruct (authorize a (host_of u) sc) as [[a1 tq1] oaz]. cbn [fst snd] in *.
+  assert (T1 : Forall (xreq_ok creds u h) tq1).
+  { eapply Forall_impl; [|exact A2]. intros q. apply tok_xreq. }
+  destruct oaz as [z1|]; [|cbn [fst snd]; split; assumption].
+  destruct (next (skipn (length tq1) sc)) as [r sc2].
+  assert (Q1 : Forall (xreq_ok creds u h) (tq1 ++ [mkReq m u h z1])).
+  { apply Forall_app. split; [exact T1|]. constructor; [apply own_xreq; apply A3; reflexivity|constructor]. }
+  destruct (chal_of r) as [ch|]; [|cbn [fst snd]; split; assumption].
+  pose proof (add_responses_spec creds a1 (host_of u) ch A1) as B1.
+  destruct (add_responses creds a1 (host_of u) ch) as [a2 res]. cbn [fst] in B1.
+  destruct res; try (cbn [fst snd]; split; assumption).
+  destruct (authorize_spec creds a2 (host_of u) sc2 B1) as (C1 & C2 & C3).
+  destruct (authorize a2 (host_of u) sc2) as [[a3 tq2] oaz2]. cbn [fst snd] in *.
+  assert (T2 : Forall (xreq_ok creds u h) tq2).
+  { eapply Forall_impl; [|exact C2]. intros q. apply tok_xreq. }
+  destruct oaz2 as [z2|].
+  - destruct (next (skipn (length tq2) sc2)) as [r2 sc4]. cbn [fst snd]. split; [exact C1|].
+    apply Forall_app. split; [exact T1|]. constructor; [apply own_xreq; apply A3; reflexivity|].
+    apply Forall_app. split; [exact T2|]. constructor; [apply own_xreq; apply C3; reflexivity|constructor].
+  - cbn [fst snd]. split; [exact C1|].
+    apply Forall_app. split; [exact T1|]. constructor; [apply own_xreq; apply A3; reflexivity|exact T2].
+Qed.
+
+Lemma get_size_spec creds a u hd sc :
+  auth_inv creds a ->
+  auth_inv creds (fst (fst (fst (get_size creds a u hd sc))))
+  /\ Forall (xreq_ok creds u hd) (snd (fst (fst (get_size creds a u hd sc)))).
+Proof.
+  intros Ha. unfold get_size.
+  destruct (xfer_spec creds a HEAD u hd sc Ha) as [A1 A2].
+  destruct (xfer creds a HEAD u hd sc) as [[[a1 qs1] r1] sc1]. cbn [fst snd] in *.
+  destruct r1 as [c1 l1 wf1 ch1|]; [|cbn [fst snd]; split; assumption].
+  destruct (c1 =? 200); [cbn [fst snd]; split; assumption|].
+  destruct (xfer_spec creds a1 GET u hd sc1 A1) as [B1 B2].
+  destruct (xfer creds a1 GET u hd sc1) as [[[a2 qs2] r2] sc2]. cbn [fst snd] in *.
+  destruct r2 as [c2 l2 wf2 ch2|]; cbn [fst snd]; (split; [exact B1|apply Forall_app; split; assumption]).
+Qed.
+
+Lemma xreq_confined creds hs c o u h q :
+  org_ok hs c o -> good_pair c o u h -> xreq_ok creds u h q -> confined hs q /\ cred_ok creds q.
+Proof.
+  intros Ho Hg [Hc Hq]. split; [|exact Hc]. apply (good_confined hs c o); [exact Ho|].
+  destruct Hq as [Hn|[Hl Hh]]; [left; exact Hn|]. unfold good_req. rewrite Hl, Hh. exact Hg.
+Qed.
+
+Definition wire_ok (creds : nat -> ckind) (hs : list hostcfg) (q : req) : Prop := confined hs q /\ cred_ok creds q.
+
+Lemma resolve_from_spec creds hs : forall pre sc,
+  Forall (wire_ok creds (pre ++ hs)) (fst (resolve_from creds (length pre) hs sc))
+  /\ match snd (resolve_from creds (length pre) hs sc) with
      | None => True
-     | Some (j, u, h) => exists hc, nth_error (pre ++ hs) j = Some hc /\ good_pair j (org_of j hc) u h
+     | Some (j, u, h, a) =>
+         auth_inv creds a /\ exists hc, nth_error (pre ++ hs) j = Some hc /\ good_pair j (org_of j hc) u h
      end.
 Proof.
   induction hs as [|hc t IH]; intros pre sc; [simpl; split; [constructor|exact I]|].
@@ -193,56 +422,80 @@ Proof.
   pose proof (org_of_ok _ _ _ En) as Hok.
   cbn [resolve_from]. destruct (h_valid hc); cbn [negb].
   2:{ rewrite EG, EL. apply IH. }
-  destruct (next sc) as [r0 sc0].
-  assert (Hq0 : confined (pre ++ hc :: t) (mkReq GET (Blob (length pre)) (org_of (length pre) hc))).
-  { apply (good_confined _ (length pre) (org_of (length pre) hc)); [exact Hok|]. right. split; reflexivity. }
+  assert (Hnew : auth_inv creds new_authz) by constructor.
+  assert (Hg0 : good_pair (length pre) (org_of (length pre) hc) (Blob (length pre)) (org_of (length pre) hc))
+    by (right; split; reflexivity).
+  destruct (xfer_spec creds new_authz GET (Blob (length pre)) (org_of (length pre) hc) sc Hnew) as [A1 A2].
+  destruct (xfer creds new_authz GET (Blob (length pre)) (org_of (length pre) hc) sc) as [[[a0 qs0] r0] sc0].
+  cbn [fst snd] in *.
+  assert (Q0 : Forall (wire_ok creds (pre ++ hc :: t)) qs0).
+  { eapply Forall_impl; [|exact A2]. intros q. apply (xreq_confined creds _ _ _ _ _ q Hok Hg0). }
   destruct (redirect_res (length pre) (org_of (length pre) hc) r0) as [[u hd]|] eqn:Er.
   - apply redirect_res_good in Er.
-    pose proof (get_size_reqs u hd sc0) as Hgs.
-    destruct (get_size u hd sc0) as [[qs1 ok] sc1]. simpl in Hgs.
-    assert (Hqs1 : Forall (confined (pre ++ hc :: t)) qs1).
-    { eapply Forall_impl; [|exact Hgs]. intros q [Hl Hh].
-      apply (good_confined _ (length pre) (org_of (length pre) hc)); [exact Hok|].
-      unfold good_req. rewrite Hl, Hh. exact Er. }
+    destruct (get_size_spec creds a0 u hd sc0 A1) as [B1 B2].
+    destruct (get_size creds a0 u hd sc0) as [[[a1 qs1] ok] sc1]. cbn [fst snd] in *.
+    assert (Q1 : Forall (wire_ok creds (pre ++ hc :: t)) qs1).
+    { eapply Forall_impl; [|exact B2]. intros q. apply (xreq_confined creds _ _ _ _ _ q Hok Er). }
     destruct ok.
-    + simpl. split; [constructor; assumption|]. exists hc. split; assumption.
+    + cbn [fst snd]. split; [apply Forall_app; split; assumption|].
+      split; [exact B1|]. exists hc. split; assumption.
     + specialize (IH (pre ++ [hc]) sc1). rewrite <- EL, <- EG in IH.
-      destruct (resolve_from (S (length pre)) t sc1) as [qs res]. simpl in *.
+      destruct (resolve_from creds (S (length pre)) t sc1) as [qs res]. cbn [fst snd] in *.
       destruct IH as [I1 I2]. split; [|exact I2].
-      constructor; [exact Hq0|]. apply Forall_app. split; assumption.
+      apply Forall_app. split; [exact Q0|]. apply Forall_app. split; assumption.
   - specialize (IH (pre ++ [hc]) sc0). rewrite <- EL, <- EG in IH.
-    destruct (resolve_from (S (length pre)) t sc0) as [qs res]. simpl in *.
-    destruct IH as [I1 I2]. split; [|exact I2]. constructor; assumption.
+    destruct (resolve_from creds (S (length pre)) t sc0) as [qs res]. cbn [fst snd] in *.
+    destruct IH as [I1 I2]. split; [|exact I2]. apply Forall_app. split; assumption.
 Qed.
 
-Lemma resolve_spec hs sc :
-  Forall (confined hs) (fst (resolve hs sc))
-  /\ match snd (resolve hs sc) with
+Lemma resolve_spec creds hs sc :
+  Forall (wire_ok creds hs) (fst (resolve creds hs sc))
+  /\ match snd (resolve creds hs sc) with
      | None => True
-     | Some (j, u, h) => exists hc, nth_error hs j = Some hc /\ good_pair j (org_of j hc) u h
+     | Some (j, u, h, a) => auth_inv creds a /\ exists hc, nth_error hs j = Some hc /\ good_pair j (org_of j hc) u h
      end.
-Proof. exact (resolve_from_spec hs [] sc). Qed.
+Proof. exact (resolve_from_spec creds hs [] sc). Qed.
 
 (* ---------- the whole life of a fetcher ---------- *)
-Lemma headers_confined hs sc os :
-  Forall (confined hs) (fst (resolve hs sc))
-  /\ forall i u h hc, snd (resolve hs sc) = Some (i, u, h) -> nth_error hs i = Some hc ->
-       Forall (confined hs) (emitted true (mk_fetcher i (org_of i hc) u h) os).
+Lemma wire_confined creds hs sc os :
+  Forall (wire_ok creds hs) (fst (resolve creds hs sc))
+  /\ forall i u h a hc, snd (resolve creds hs sc) = Some (i, u, h, a) -> nth_error hs i = Some hc ->
+       Forall (wire_ok creds hs) (emitted true creds (mk_fetcher i (org_of i hc) u h a) os).
 Proof.
-  destruct (resolve_spec hs sc) as [H1 H2]. split; [exact H1|].
-  intros i u h hc E En. rewrite E in H2. destruct H2 as (hc' & En' & Hg).
+  destruct (resolve_spec creds hs sc) as [H1 H2]. split; [exact H1|].
+  intros i u h a hc E En. rewrite E in H2. destruct H2 as (Ha & hc' & En' & Hg).
   assert (hc' = hc) by congruence. subst hc'.
-  apply emitted_confined; [apply org_of_ok; exact En|exact Hg].
+  apply emitted_confined; [apply org_of_ok; exact En|exact Hg|exact Ha].
 Qed.
 
-Lemma header_state_confined hs sc os i u h hc j :
-  snd (resolve hs sc) = Some (i, u, h) -> nth_error hs i = Some hc ->
-  header (exec true (mk_fetcher i (org_of i hc) u h) os) = Some j ->
-  url (exec true (mk_fetcher i (org_of i hc) u h) os) = Blob j /\ j = i /\ h_hdr hc = true.
+Lemma headers_confined creds hs sc os :
+  Forall (confined hs) (fst (resolve creds hs sc))
+  /\ forall i u h a hc, snd (resolve creds hs sc) = Some (i, u, h, a) -> nth_error hs i = Some hc ->
+       Forall (confined hs) (emitted true creds (mk_fetcher i (org_of i hc) u h a) os).
 Proof.
-  intros E En Hj. destruct (resolve_spec hs sc) as [_ H2]. rewrite E in H2. destruct H2 as (hc' & En' & Hg).
+  destruct (wire_confined creds hs sc os) as [H1 H2]. split.
+  - eapply Forall_impl; [|exact H1]. intros q [Hq _]. exact Hq.
+  - intros i u h a hc E En. eapply Forall_impl; [|exact (H2 i u h a hc E En)]. intros q [Hq _]. exact Hq.
+Qed.
+
+Lemma creds_on_wire creds hs sc os :
+  Forall (cred_ok creds) (fst (resolve creds hs sc))
+  /\ forall i u h a hc, snd (resolve creds hs sc) = Some (i, u, h, a) -> nth_error hs i = Some hc ->
+       Forall (cred_ok creds) (emitted true creds (mk_fetcher i (org_of i hc) u h a) os).
+Proof.
+  destruct (wire_confined creds hs sc os) as [H1 H2]. split.
+  - eapply Forall_impl; [|exact H1]. intros q [_ Hq]. exact Hq.
+  - intros i u h a hc E En. eapply Forall_impl; [|exact (H2 i u h a hc E En)]. intros q [_ Hq]. exact Hq.
+Qed.
+
+Lemma header_state_confined creds hs sc os i u h a hc j :
+  snd (resolve creds hs sc) = Some (i, u, h, a) -> nth_error hs i = Some hc ->
+  header (exec true creds (mk_fetcher i (org_of i hc) u h a) os) = Some j ->
+  url (exec true creds (mk_fetcher i (org_of i hc) u h a) os) = Blob j /\ j = i /\ h_hdr hc = true.
+Proof.
+  intros E En Hj. destruct (resolve_spec creds hs sc) as [_ H2]. rewrite E in H2. destruct H2 as (Ha & hc' & En' & Hg).
   assert (hc' = hc) by congruence. subst hc'.
-  destruct (header_implies_blob_url hs i _ u h os j (org_of_ok _ _ _ En) Hg Hj) as (Hu & -> & Ho).
+  destruct (header_implies_blob_url creds hs i _ u h a os j (org_of_ok _ _ _ En) Hg Ha Hj) as (Hu & -> & Ho).
   repeat split; [exact Hu|]. unfold org_of in Ho. destruct (h_hdr hc); [reflexivity|discriminate].
 Qed.
 
@@ -253,60 +506,126 @@ Proof.
   destruct (H i E) as [Hl _]. exfalso. exact (Hn i Hl).
 Qed.
 
-(* ---------- Resume is a composition of atomic sub-steps and drops no request ---------- *)
-Lemma unparked_no_emit fixed s t r : is_parked s t = false -> snd (micro fixed s t r) = [].
+(* ---------- RegistryHostsFromConfig ---------- *)
+Lemma hosts_of_config_spec ms hs :
+  hosts_of_config ms = Some hs ->
+  length hs = S (length ms)
+  /\ (forall i m, nth_error ms i = Some m -> nth_error hs i = Some (mkHost (m_valid m) (table_nonempty (m_hdr m))))
+  /\ nth_error hs (length ms) = Some (mkHost true false).
 Proof.
-  unfold is_parked, micro. destruct (nth_error (threads s) t) as [p|]; [|discriminate].
-  destruct p; simpl; intros H; try discriminate; reflexivity.
+  unfold hosts_of_config. destruct (forallb (fun m => table_ok (m_hdr m)) ms); [|discriminate].
+  intros E. inversion E; subst. clear E. split; [|split].
+  - rewrite app_length, map_length. simpl. lia.
+  - intros i m Hm. rewrite nth_error_app1 by (rewrite map_length; apply nth_error_Some; congruence).
+    rewrite nth_error_map, Hm. reflexivity.
+  - rewrite nth_error_app2 by (rewrite map_length; lia). rewrite map_length, Nat.sub_diag. reflexivity.
 Qed.
 
-Definition micro_of (t : nat) (o : op) : Prop := exists r, o = Micro t r.
-
-Lemma settle_micros fixed f : forall s t,
-  exists ms, Forall (micro_of t) ms /\ exec fixed s ms = settle fixed f s t /\ emitted fixed s ms = [].
+(* with the host list built from the configuration: headers reach host i only if mirror i's OWN table is
+   non-empty; the origin host (last) never gets any *)
+Lemma confined_config ms hs q i :
+  hosts_of_config ms = Some hs -> confined hs q -> r_hdr q = Some i ->
+  r_loc q = Blob i /\ exists m, nth_error ms i = Some m /\ table_nonempty (m_hdr m) = true.
 Proof.
-  induction f as [|f IH]; intros s t; simpl.
+  intros Hc Hq Hi. destruct (Hq i Hi) as (Hl & hc & En & Hh). split; [exact Hl|].
+  destruct (hosts_of_config_spec ms hs Hc) as (Hlen & Hm & Hlast).
+  destruct (nth_error ms i) as [m|] eqn:Em.
+  - exists m. split; [reflexivity|]. rewrite (Hm i m Em) in En. inversion En; subst. exact Hh.
+  - exfalso. apply nth_error_None in Em.
+    assert (i < length hs) by (apply nth_error_Some; congruence).
+    assert (i = length ms) by lia. subst i. rewrite Hlast in En. inversion En; subst. discriminate.
+Qed.
+
+(* ---------- credentials on the wire vs. the keychain ---------- *)
+Lemma kind_secret_nonempty c :
+  has_secret (kind_of c) = true -> exists u s, c = Creds.COk u s /\ (u <> [] \/ s <> []).
+Proof.
+  destruct c as [u s|]; [|discriminate]. intros H. exists u, s. split; [reflexivity|].
+  right. intros ->. simpl in H. destruct u; discriminate.
+Qed.
+
+(* a request that carries the secret obtained for host j *)
+Definition carries_secret_for (j : nat) (q : req) : Prop := r_az q = AzBasic j \/ r_az q = AzTok j true.
+
+Lemma secret_offered creds j q : cred_ok creds q -> carries_secret_for j q -> has_secret (creds j) = true.
+Proof.
+  unfold cred_ok. intros H [E|E]; rewrite E in H.
+  - destruct H as [_ ->]. reflexivity.
+  - destruct H as (_ & _ & Hc). apply Hc. reflexivity.
+Qed.
+
+Lemma secret_follows_pull (c : bool) (kos : list Creds.op) (name : nat -> Creds.str) (r : nat) j q :
+  let creds := fun j => kind_of (Creds.credentials (Creds.exec (Creds.init c) kos) (name j) r) in
+  cred_ok creds q -> carries_secret_for j q ->
+  exists pre a ok post,
+    kos = pre ++ Creds.Pull (Some r) (Some a) ok :: post
+    /\ (forall o, In o post -> Creds.touches r o = false)
+    /\ (c = true \/ In Creds.Connect pre)
+    /\ (Creds.a_sa a = Creds.SAEmpty
+        \/ (Creds.a_sa a <> Creds.SAEmpty /\ Creds.url_host (Creds.a_sa a) = Some (Creds.alias (name j)))).
+Proof.
+  intros creds Hq Hs. pose proof (secret_offered creds j q Hq Hs) as Hk. unfold creds in Hk.
+  destruct (kind_secret_nonempty _ Hk) as (u & s & E & Hne).
+  destruct (Proofs.Creds.creds_confined c kos (name j) r u s E Hne) as (pre & a & ok & post & H1 & H2 & H3 & H4 & _).
+  exists pre, a, ok, post. repeat split; assumption.
+Qed.
+
+(* ---------- Resume is a composition of atomic sub-steps and drops no request ---------- *)
+Definition micro_of (t : nat) (o : op) : Prop := exists r toks, o = Micro t r toks.
+
+Lemma settle_micros fixed creds f : forall s t toks,
+  exists ms, Forall (micro_of t) ms
+             /\ exec fixed creds s ms = fst (settle fixed creds f s t toks)
+             /\ emitted fixed creds s ms = snd (settle fixed creds f s t toks).
+Proof.
+  induction f as [|f IH]; intros s t toks; cbn [settle].
   - exists []. repeat split; constructor.
   - destruct (is_parked s t) eqn:E.
     + exists []. repeat split; constructor.
-    + destruct (IH (fst (micro fixed s t RErr)) t) as (ms & H1 & H2 & H3).
-      exists (Micro t RErr :: ms). split; [constructor; [exists RErr; reflexivity|exact H1]|].
+    + destruct (micro fixed creds s t RErr toks) as [s1 q1] eqn:Em.
+      destruct (IH s1 t toks) as (ms & H1 & H2 & H3).
+      destruct (settle fixed creds f s1 t toks) as [s2 q2]. cbn [fst snd] in *.
+      exists (Micro t RErr toks :: ms). split; [constructor; [exists RErr, toks; reflexivity|exact H1]|].
       split.
-      * rewrite exec_cons. exact H2.
-      * rewrite emitted_cons. simpl. rewrite H3, (unparked_no_emit fixed s t RErr E). reflexivity.
+      * rewrite exec_cons. cbn [step]. rewrite Em. exact H2.
+      * rewrite emitted_cons. cbn [step]. rewrite Em. cbn [fst snd]. rewrite H3. reflexivity.
 Qed.
 
-Lemma resume_micros fixed s t r :
+Lemma resume_micros fixed creds s t r toks :
   exists ms, Forall (micro_of t) ms
-             /\ exec fixed s ms = fst (resume fixed s t r) /\ emitted fixed s ms = snd (resume fixed s t r).
+             /\ exec fixed creds s ms = fst (resume fixed creds s t r toks)
+             /\ emitted fixed creds s ms = snd (resume fixed creds s t r toks).
 Proof.
-  unfold resume. destruct (micro fixed s t r) as [s1 q] eqn:E.
-  destruct (settle_micros fixed 6 s1 t) as (ms & H1 & H2 & H3).
-  exists (Micro t r :: ms). split; [constructor; [exists r; reflexivity|exact H1]|].
+  unfold resume. destruct (micro fixed creds s t r toks) as [s1 q1] eqn:E.
+  destruct (settle_micros fixed creds 8 s1 t toks) as (ms & H1 & H2 & H3).
+  destruct (settle fixed creds 8 s1 t toks) as [s2 q2]. cbn [fst snd] in *.
+  exists (Micro t r toks :: ms). split; [constructor; [exists r, toks; reflexivity|exact H1]|].
   split.
-  - rewrite exec_cons. simpl. rewrite E. exact H2.
-  - rewrite emitted_cons. simpl. rewrite E. simpl. rewrite H3, app_nil_r. reflexivity.
+  - rewrite exec_cons. cbn [step]. rewrite E. exact H2.
+  - rewrite emitted_cons. cbn [step]. rewrite E. cbn [fst snd]. rewrite H3. reflexivity.
 Qed.
 
 (* ---------- the code before patches/C18-fix-1.diff ---------- *)
 (* fetch A has read its (redirected) target; check B gets 403, refreshes, the registry now answers directly and B
    installs the registry's headers; A then reads the header field and sends it to the old redirect location. *)
+Definition no_creds : nat -> ckind := fun _ => KNone.
 Definition race_hosts := [mkHost true true; mkHost true false].
-Definition race_script := [Resp 307 (Some (Ext 0)) true].
+Definition race_script := [Resp 307 (Some (Ext 100 0)) true ChNone].
+Definition ok206 := Resp 206 None true ChNone.
 Definition race_schedule :=
-  [Spawn KFetch true; Spawn KCheck false; Resume 0 RErr; Resume 1 RErr; Resume 1 RErr;
-   Resume 1 (Resp 403 None true); Resume 1 (Resp 200 None true); Resume 0 RErr; Resume 0 (Resp 206 None true)].
+  [Spawn KFetch true; Spawn KCheck false; Resume 0 RErr []; Resume 1 RErr []; Resume 1 RErr [];
+   Resume 1 (Resp 403 None true ChNone) []; Resume 1 (Resp 200 None true ChNone) []; Resume 0 RErr []; Resume 0 ok206 []].
 
 Lemma unfixed_leaks :
-  exists hs sc os i u h hc,
-    snd (resolve hs sc) = Some (i, u, h) /\ nth_error hs i = Some hc
-    /\ In (mkReq GET (Ext 0) (Some 0)) (emitted false (mk_fetcher i (org_of i hc) u h) os).
+  exists creds hs sc os i u h a hc,
+    snd (resolve creds hs sc) = Some (i, u, h, a) /\ nth_error hs i = Some hc
+    /\ In (mkReq GET (Ext 100 0) (Some 0) AzNone) (emitted false creds (mk_fetcher i (org_of i hc) u h a) os).
 Proof.
-  exists race_hosts, race_script, race_schedule, 0, (Ext 0), None, (mkHost true true).
+  exists no_creds, race_hosts, race_script, race_schedule, 0, (Ext 100 0), None, new_authz, (mkHost true true).
   split; [reflexivity|]. split; [reflexivity|]. vm_compute. tauto.
 Qed.
 
 Lemma fixed_same_schedule :
-  emitted true (mk_fetcher 0 (Some 0) (Ext 0) None) race_schedule
-  = [mkReq GET (Ext 0) None; mkReq GET (Blob 0) (Some 0); mkReq GET (Ext 0) None].
+  emitted true no_creds (mk_fetcher 0 (Some 0) (Ext 100 0) None new_authz) race_schedule
+  = [mkReq GET (Ext 100 0) None AzNone; mkReq GET (Blob 0) (Some 0) AzNone; mkReq GET (Ext 100 0) None AzNone].
 Proof. vm_compute. reflexivity. Qed.
